@@ -5,9 +5,10 @@
    fold starts, (2) no append to previous/current below the cursor, (3) no empty generation left
    behind at a met_iteration_end.  Without it the statement is false: [C13_cursor_once_full] is
    refuted, with three independent witnesses; the third one uses nothing but `new` appends and two
-   folds over one stream, and replays on the real interpreter (see Stream.README). *)
+   folds over one stream.  Witness 1/2 and witness 3 replay on the real interpreter: known findings
+   stream-fold-cursor-hole and stream-second-fold-skips-new (corpus/C13). *)
 From Coq Require Import Permutation.
-From Aqua Require Import Base Stream StreamProofs.
+From Aqua Require Import Base Stream StreamProofs StreamTie StreamTieProofs.
 Open Scope N_scope.
 
 (* one entry per append, nothing duplicated, nothing lost, counter exact, below STREAM_MAX_SIZE *)
@@ -17,6 +18,19 @@ Proof. exact StreamProofs.C13_stream_exact. Qed.
 (* one add_value from any well-formed stream; the limit check is exact *)
 Theorem C13_add_value : forall V : Type, C13_add_value_stmt V.
 Proof. exact StreamProofs.C13_add_value. Qed.
+
+(* the generation guard of Stream::add_value (fix C01-stream-generation-resize): an index at or above
+   STREAM_MAX_SIZE is refused with StreamSizeLimitExceeded and nothing is modified; hence the
+   `checked_add(1).unwrap()` of values_matrix.rs cannot panic under add_value, and `resize` allocates at
+   most STREAM_MAX_SIZE rows *)
+Theorem C13_add_value_guard : forall (V : Type) (s : stream V) v g,
+  (generation_in_range g = false -> stream_add_value V s v g = SErr StreamSizeLimitExceeded) /\
+  (generation_in_range g = true -> stream_grow_rows V s g <= stream_max_size) /\
+  stream_add_value V s v g <> SCrash SiteGenCheckedAddOne.
+Proof.
+  exact (fun V s v g => conj (StreamProofs.add_value_refused_untouched V s v g)
+                        (conj (StreamProofs.add_value_resize_bounded V s g) (StreamProofs.add_value_no_checked_add_crash V s v g))).
+Qed.
 
 (* met_fold_start (append* met_iteration_end)*: handed out + pending = the stream, as multisets; after a
    met_iteration_end (in particular at Exhausted) every value was handed out exactly once *)
@@ -74,23 +88,60 @@ Proof.
         (conj (matrix_rows_nonempty V) (conj (matrix_rows_iter V) (matrix_rows_remove_empty V)))))).
 Qed.
 
-(* STREAM_MAX_SIZE is the constant of the source *)
-Theorem C13_source_tie : stream_max_size = 1024.
-Proof. reflexivity. Qed.
+(* the functions these theorems are about are the ones in /repo's sources today (tools/genx_stream.py re-reads
+   them on every run; stream_max_size itself is STREAM_MAX_SIZE of stream_definition.rs): the size check is
+   `previous + current + new >= STREAM_MAX_SIZE`; add_value = generation guard (Previous/Current index >=
+   STREAM_MAX_SIZE refused), insert into the matrix of the variant, size check, in this order; Stream::cursor
+   = the three generation counts in the fields of the same kind, the empty cursor is (0,0,0); slice_iter chains
+   previous/current/new from the cursor's fields; ValuesMatrix::slice_iter filters the non-empty generations
+   BEFORE it skips while generations_count counts all of them; met_fold_start / met_iteration_end perform their
+   statements in the order the model has them *)
+Theorem C13_source_tie :
+  (forall (V : Type) (s : stream V), check_stream_size_limit V s = check_by V src_stream_size_terms src_stream_size_cmp s) /\
+  src_stream_size_bound = "STREAM_MAX_SIZE"%string /\ In src_stream_size_error uncatchable_error_variants /\
+  (forall g, refused_by src_stream_add_guard g = negb (generation_in_range g)) /\
+  (forall (V : Type) (s : stream V) v g, stream_add_value V s v g =
+     add_by V src_stream_add_order src_stream_add_guard src_stream_add_arms src_stream_size_terms src_stream_size_cmp s v g) /\
+  (forall (V : Type) (s : stream V), stream_get_cursor V s = cursor_by V src_stream_cursor_args src_stream_cursor_params s) /\
+  cursor_empty = cursor_of src_stream_cursor_empty /\
+  (forall (V : Type) (s : stream V) c, stream_slice_iter V s c = slice_iter_by V src_stream_slice_iter_chain s c) /\
+  (forall (V : Type) (m : matrix V) skip, matrix_slice_iter V m skip = slice_ops_by V src_matrix_slice_iter_ops (map snd (m_cells m)) skip) /\
+  (src_matrix_generations_count_is_len && src_matrix_remove_empty_is_retain_non_empty && src_matrix_iter_is_flat_map &&
+   src_new_matrix_adds_to_last_row && src_new_matrix_push_pop_last &&
+   src_cursor_state_is_slice_from_cursor && src_streams_compactify_every_descriptor)%bool = true /\
+  (forall (V : Type) (m : matrix V) g, cmp_apply src_matrix_add_resize_cmp g (m_len m) = (m_len m <=? g)) /\
+  (forall (V : Type) rc (s : stream V), met_fold_start V rc s = cursor_steps V src_met_fold_start_steps Exhausted rc s) /\
+  (forall (V : Type) rc (s : stream V), met_iteration_end V rc s = cursor_steps V src_met_iteration_end_steps Exhausted rc s).
+Proof.
+  refine (conj (fun V s => proj1 (size_check_tie V s)) (conj (proj1 (proj2 (size_check_tie unit (stream_new unit))))
+         (conj (proj2 (proj2 (proj2 (size_check_tie unit (stream_new unit))))) (conj guard_tie (conj add_value_tie (conj cursor_tie
+         (conj (proj1 cursor_empty_tie) (conj slice_iter_tie (conj (fun V m k => proj1 (matrix_tie V m k)) (conj _
+         (conj (fun V m => proj2 (proj2 (matrix_tie V m 0))) (conj met_fold_start_tie met_iteration_end_tie)))))))))))).
+  reflexivity.
+Qed.
 
 (* ---------------- non-vacuity ---------------- *)
 Definition mk (l : list (N * generation)) : stream N :=
   match add_all N (stream_new N) l with SOk s => s | _ => stream_new N end.
 
-(* stream_definition.rs test stream_size_limit: 1023 appends succeed, the 1024th fails *)
+(* stream_definition.rs test stream_size_limit: STREAM_MAX_SIZE - 1 appends succeed, the next one fails *)
 Example C13_size_limit_example :
-  let l := map (fun i => (N.of_nat i, GCurrent 0)) (seq 0 512) ++ map (fun i => (N.of_nat i, GPrevious 0)) (seq 0 256)
-           ++ map (fun i => (N.of_nat i, GNew)) (seq 0 255) in
+  let n := N.to_nat (stream_max_size - 1) in
+  let l := map (fun i => (N.of_nat i, GCurrent 0)) (seq 0 (n / 2)) ++ map (fun i => (N.of_nat i, GPrevious 0)) (seq 0 (n / 4))
+           ++ map (fun i => (N.of_nat i, GNew)) (seq 0 (n - n / 2 - n / 4)) in
   match add_all N (stream_new N) l with
-  | SOk s => stream_size N s = 1023 /\ lenN (stream_iter N s) = 1023 /\
+  | SOk s => stream_size N s = stream_max_size - 1 /\ lenN (stream_iter N s) = stream_max_size - 1 /\
              stream_add_value N s 0 GNew = SErr StreamSizeLimitExceeded
   | _ => False
   end.
+Proof. vm_compute. repeat split. Qed.
+
+(* the guard: generation STREAM_MAX_SIZE - 1 is accepted, STREAM_MAX_SIZE is refused and the stream is not touched *)
+Example C13_guard_example :
+  generation_in_range (GPrevious (stream_max_size - 1)) = true /\ generation_in_range (GCurrent stream_max_size) = false /\
+  generation_in_range GNew = true /\
+  stream_add_value N (mk [(7, GNew)]) 8 (GPrevious stream_max_size) = SErr StreamSizeLimitExceeded /\
+  stream_grow_rows N (stream_new N) (GPrevious (stream_max_size - 1)) = stream_max_size.
 Proof. vm_compute. repeat split. Qed.
 
 (* resize pads with empty rows; nothing is lost, nothing duplicated *)
@@ -162,6 +213,7 @@ Proof. vm_compute. repeat split. Qed.
 
 Print Assumptions C13_stream_exact.
 Print Assumptions C13_add_value.
+Print Assumptions C13_add_value_guard.
 Print Assumptions C13_cursor_once_partial.
 Print Assumptions C13_cursor_once_refuted.
 Print Assumptions C13_cursor_refuted.
